@@ -1,2 +1,24 @@
-(* PropsC06.v *)
-From Ucfg Require Import Base ParseInt Consts Field Tree PathOps Merge OTree F64 Conv Reify.
+(* PropsC06.v — C06: Struct -> Config -> struct is the identity.
+   Statements only; proofs are in ProofsReify.v.
+
+   PARTIAL: proved is the leaf of the round trip - a bool, a string, a signed or unsigned
+   integer of any width up to 64 bits and a float64 that is no NaN, stored as normalization
+   stores it, converts back to exactly the same value.  NOT proved: the round trip of whole
+   struct values (tags, inline, nesting, collections), float32 and durations (the latter
+   travel as text through time.Duration.String / time.ParseDuration, oracles supplied by the
+   harness).  They are decided by the correspondence run (model of Merge-from-struct and
+   Unpack against the implementation, and the round-trip equality on the implementation's
+   own results).  F15 is the known deviation. *)
+From Ucfg Require Import Base ParseInt Consts Field Tree PathOps Merge OTree F64 Conv Reify ProofsReify.
+Local Open Scope Z_scope.
+
+Theorem c06_primitive_roundtrip_partial : forall ft dur k c, fits k c -> conv ft dur k (stored c) = Ok c.
+Proof. exact prim_roundtrip. Qed.
+Print Assumptions c06_primitive_roundtrip_partial.
+
+(* the hypothesis is met by the extreme values of the widest kinds *)
+Theorem c06_fits_extremes :
+  fits (KInt 64) (CI (- 2 ^ 63)) /\ fits (KInt 64) (CI (2 ^ 63 - 1)) /\ fits (KUint 64) (CU (2 ^ 64 - 1))
+  /\ fits (KInt 8) (CI (-128)) /\ fits KString (CS "${x}.,{}").
+Proof. exact fits_extremes. Qed.
+Print Assumptions c06_fits_extremes.
